@@ -942,7 +942,7 @@ func genSpec(seed uint64, worker, run int, tier string) (*Spec, *Rng, faultSet) 
 // to N simultaneous callers only).
 func (g *gen) crowd(s *Spec, hot []int, fs faultSet) {
 	r := g.r
-	nt := r.Range(7, 12)
+	nt := r.Range(7, verifsim.MaxTasks)
 	if v, ok := g.nearConstant(2, 15); ok && r.Chance(0.4) {
 		nt = v + 1 // one more caller than some small constant of the library
 	}
@@ -1279,6 +1279,9 @@ func finalizeSchedule(s *Spec, r *Rng, fs faultSet, soloSteps int64) {
 	k0 := r.Intn(100)
 	if nHotSites > 0 && r.Chance(0.35) {
 		k0 = 1000 // the library has synchronisation operations: aim at their windows
+	}
+	if s.Strategy == "crowd" && r.Chance(0.5) {
+		k0 = 30 // pile-up: the point of a crowd is that everybody is in flight at once
 	}
 	switch k := k0; {
 	case k == 1000:
